@@ -11,14 +11,14 @@ def main():
     ap.add_argument('zoo'); ap.add_argument('cfg')
     ap.add_argument('--ops', default=None); ap.add_argument('--faults', type=int, default=0); ap.add_argument('--submits', type=int, default=0)
     ap.add_argument('--qbound', type=int, default=2); ap.add_argument('--depth', type=int, default=60); ap.add_argument('--show', type=int, default=5)
-    ap.add_argument('--act', action='store_true'); ap.add_argument('--guards', type=int, default=-1); ap.add_argument('--fault-ops', type=int, default=-1); ap.add_argument('--max-exec', type=int, default=300000)
+    ap.add_argument('--act', action='store_true'); ap.add_argument('--guards', type=int, default=-1); ap.add_argument('--fault-ops', type=int, default=-1); ap.add_argument('--max-exec', type=int, default=300000); ap.add_argument('--nt', action='store_true')
     a = ap.parse_args()
     z = zoomod.ZOO[a.zoo]
     exe = vbuild.build_one(a.zoo, a.cfg)
     ops = a.ops.split(',') if a.ops else ['start', 'stop'] + [f'pe:{i+1}' for i in range(len(z.events))]
     out = os.path.join(VERIF, 'build', 'tmp', f'calib_{a.zoo}_{a.cfg}.txt')
-    conform.run_explorer(exe, ops, depth=a.depth, faults=a.faults, submits=a.submits, qbound=a.qbound, outfile=out, max_exec=a.max_exec, guards=a.guards, fault_ops=a.fault_ops)
-    c = conform.Conformer(z, a.cfg, faults=a.faults > 0, n_menu=len(z.menu) if a.submits else 0)
+    conform.run_explorer(exe, ops, depth=a.depth, faults=a.faults, submits=a.submits, qbound=a.qbound, outfile=out, max_exec=a.max_exec, guards=a.guards, fault_ops=a.fault_ops, submit_in_nt=a.nt)
+    c = conform.Conformer(z, a.cfg, faults=a.faults > 0, n_menu=len(z.menu) if a.submits else 0, submit_in_nt=a.nt)
     stats = collections.Counter(); shown = [0]
     def on_exec(x):
         if x.mtrace is None:
